@@ -400,6 +400,8 @@ def mkBits (c : Cfg) (kind ctor : String) (a : List String) : Option (Option Obj
     | some b, some l => some (some (.bv (BV.fromBit b l) (Array.replicate l b)), .eq "ok")
     | _, _ => none
   | "bv", "from_bits", [bs] => (bits? bs).map fun (l, w) => (some (.bv (bvOfBits l w) (bitsArray l w)), .eq "ok")
+  -- the same bits through an iterator reporting another (legal) size hint: the hint is not part of the value
+  | "bv", "from_bits", [bs, _hint] => (bits? bs).map fun (l, w) => (some (.bv (bvOfBits l w) (bitsArray l w)), .eq "ok")
   | "bv", "build", [bs, _, _, _] => (bits? bs).map fun (l, w) => (some (.bv (bvOfBits l w) (bitsArray l w)), .eq "ok")
   | "r9", "new", [bs, h1, h0] => match bits? bs, flag? h1, flag? h0 with
     | some (l, w), some h1, some h0 => match R9.build c (bvOfBits l w) h1 h0 with
@@ -745,6 +747,9 @@ def mutate (c : Cfg) (o : Obj) (meth : String) (a : List String) : Option (Optio
         | .error _ => some (none, ⟨"panic", .eq (okErr good)⟩))
       | _, _, _ => none)
     | "extend", [bs] => (bits? bs).map fun (l, w) =>
+        let add := bitsArray l w
+        (some (.bv (m.extend add.toList) (s ++ add)), ⟨"ok", .eq "ok"⟩)
+    | "extend", [bs, _hint] => (bits? bs).map fun (l, w) =>
         let add := bitsArray l w
         (some (.bv (m.extend add.toList) (s ++ add)), ⟨"ok", .eq "ok"⟩)
     | "shrink_to_fit", [] => some (some o, ⟨"ok", .eq "ok"⟩)
